@@ -341,7 +341,7 @@ def unit_typed(unit):
     what = unit[0]
     if what == "arith":
         kinds = {
-            "bool": [True, False], "int": [1, 2], "float": [0.5, 2.0], "complex": [1j, 2 + 0j],
+            "bool": [True, False], "int": [1, -2], "float": [0.5, 2.0], "complex": [1j, 2 + 0j],
         }
         names = list(kinds)
         opn = unit[1]
@@ -387,7 +387,9 @@ def unit_typed(unit):
                         check_col(agg, f"arith.{form}", r, case)
     elif what == "join":
         keysets = [[1], [2], [1, 2], [2, 1], [1, 1], [2, 3], [3, 1]]
-        pay = {"int": [10, 20], "float": [0.5, 1.5], "str": ["x", "y"], "bool": [True, False]}
+        pay = {"int": [10, 20], "float": [0.5, 1.5], "str": ["x", "y"], "bool": [True, False],
+               "int-then-None": [10, None], "None-then-int": [None, 20], "int-then-float": [10, 0.5], "float-then-int": [0.5, 20],
+               "bool-then-int": [True, 7]}      # the second (possibly unmatched) row is the only carrier of the None / wider kind
         for lk in keysets:
             for rk in keysets:
                 for pk, pv in pay.items():
